@@ -3,7 +3,7 @@
 -/
 import GIV.Lemmas.ParWorkLive
 namespace GIV.ParWork
-open GIV.Gen.Par
+open GIV.Gen.ParWork
 
 theorem invL_reach {c : Cfg} (hn : 1 ≤ c.n) {s : State} (h : Reach c s) : InvL c s := by
   induction h with
